@@ -421,6 +421,27 @@ func c07Streams(c *core.Ctx) {
 					}
 					c.Violate("C07|fopts-overlong|accepted|len="+cls, "FOpts of %d bytes accepted; frame %x…", ln, b[:12])
 				}
+				// every path that serialises the frame must refuse it too
+				k := lorawan.AES128Key{1}
+				paths := map[string]func() error{
+					"MarshalText":        func() error { _, e := phy.MarshalText(); return e },
+					"SetUplinkDataMIC":   func() error { return phy.SetUplinkDataMIC(lorawan.LoRaWAN1_0, 0, 0, 0, k, k) },
+					"SetDownlinkDataMIC": func() error { return phy.SetDownlinkDataMIC(lorawan.LoRaWAN1_1, 0, k) },
+					"ValidateUplinkDataMIC": func() error {
+						_, e := phy.ValidateUplinkDataMIC(lorawan.LoRaWAN1_1, 0, 0, 0, k, k)
+						return e
+					},
+					"EncryptFOpts": func() error { return phy.EncryptFOpts(k) },
+				}
+				for _, name := range []string{"MarshalText", "SetUplinkDataMIC", "SetDownlinkDataMIC", "ValidateUplinkDataMIC", "EncryptFOpts"} {
+					var e error
+					c.Eval(1)
+					if p, msg := core.Guard(func() { e = paths[name]() }); p {
+						c.Violate("C07|fopts-overlong|panic|"+name, "%d bytes: %s", ln, short(msg, 200))
+					} else if e == nil {
+						c.Violate("C07|fopts-overlong|accepted|"+name, "FOpts of %d bytes accepted by %s", ln, name)
+					}
+				}
 				c.Shape("refusal-fopts", ln, raw)
 			}
 		}
